@@ -163,6 +163,11 @@ def build(desc: dict) -> Any:
             a2 = da.values.reshape(S, Fs[k]).copy()
             a2[flat, :] = np.nan
             da = da.copy(data=a2.reshape(da.shape))
+        if desc.get("nan_sample_new") and S >= 2:
+            # unseen data with one entirely missing sample (every field): transform drops it
+            a2 = da.values.reshape(S, Fs[k]).copy()
+            a2[(desc["seed"] + 1) % S, :] = np.nan
+            da = da.copy(data=a2.reshape(da.shape))
         order = desc.get("order", "sf")
         if order == "fs":
             da = da.transpose(*fnames, *snames)
@@ -215,6 +220,8 @@ def build(desc: dict) -> Any:
     if container == "list":
         return out
     if container == "ds":
+        if desc.get("var_order") == "rev":
+            out = out[::-1]          # the same variables, assembled in another order
         ds = xr.Dataset({o.name: o for o in out})
         ds.attrs = attrs_for(desc.get("ds_attrs"))
         return ds
@@ -249,7 +256,18 @@ def _chunk(da: xr.DataArray, ch: dict, sdim) -> xr.DataArray:
     if mode == "allfeat":
         for d in fd:
             spec[d] = parts(d)
-    return da.chunk(spec)
+    out = da.chunk(spec)
+    # the blocks come out of a *loader task* (as they would from a file): whether a graph still reaches back
+    # to the user's source is then observable by counting loader executions (C12 L2)
+    return out.copy(data=out.data.map_blocks(_loader, dtype=out.dtype))
+
+
+LOADS = [0]
+
+
+def _loader(block):
+    LOADS[0] += 1
+    return block
 
 
 def build_weights(desc: dict, wdesc: dict) -> Any:
@@ -273,6 +291,8 @@ def build_weights(desc: dict, wdesc: dict) -> Any:
         da = xr.DataArray(w, dims=fnames, coords=coords, name=wname)
         if desc.get("multiindex") == "feature" and len(fnames) >= 2:
             da = da.stack({desc.get("mi_fname", "fmi"): fnames})
+        if wdesc.get("dim_order") == "rev" and da.ndim >= 2:
+            da = da.transpose(*reversed(da.dims))    # weights are matched by dimension name, not position
         out.append(da)
     if wdesc.get("chunked"):
         out = [o.chunk() for o in out]          # the weights themselves are dask-backed
@@ -368,7 +388,12 @@ def sanitize_descs(descs: dict) -> None:
     """Last step of every generator: at least three *valid* (not all-NaN) features per data set. Two
     standardised features are the degenerate +-45 degree family (signs and rotations decided by exact ties)."""
     for d in descs.values():
-        if d.get("kind") == "weights" or not d.get("nan_features"):
+        if d.get("kind") == "weights" or "fields" not in d:
+            continue
+        if n_features_total(d) < 3:
+            # (a generator step that turned a Dataset/list into its first variable may leave two features)
+            d["fields"][0][0][1] = int(d["fields"][0][0][1]) + 3 - n_features_total(d) if len(d["fields"][0]) == 1 else 3
+        if not d.get("nan_features"):
             continue
         fields = d["fields"] if d.get("container", "da") != "da" else d["fields"][:1]
         f0 = int(np.prod([x[1] for x in fields[0]]))
